@@ -24,7 +24,7 @@ Serialized serialize_msg(const MsgSpec &m) {
     o += m.eol;
     s.head_end = (long) o.size();
     size_t body_start = o.size();
-    if (m.head_response) { s.body_wire_len = 0; return s; }
+    if (m.head_response || m.body_withheld) { s.body_wire_len = 0; return s; }
     switch (m.framing) {
         case FR_NONE: break;
         case FR_CL: case FR_CLOSE: o += m.body; break;
@@ -351,6 +351,7 @@ Script random_script(Rng &r, const GenFeatures &f, int n, int id_base) {
                 p.interim = r.coin() ? Bytes("HTTP/1.1 100 Continue\r\n\r\n") : Bytes("HTTP/1.1 100 Continue\r\nX-Interim: ") + rand_token(r, 1, 6) + "\r\n" + (r.coin() ? "Server: sim\r\n" : "") + "\r\n";
             // a 4xx final answer and no interim one: the client did not wait and sent its body all the same (the variant in which
             // it waits and never sends the body needs the response to be seen first; it is built by the scenarios that own the schedule)
+            else if (f.expect_withheld && q.framing == FR_CL && !q.body.empty() && bparams.empty() && r.coin()) q.body_withheld = true;   // the client waited, and gave up on the 4xx
             else if (r.coin()) { q.headers.pop_back(); }
         }
         // derived ground truth, computed from what the actor chose (never from bytes)
@@ -418,7 +419,9 @@ void build_conn_from_script(Rng &rng, const Script &s, ConnPlan &cp, bool with_e
             x.expect.push_back(std::make_pair("req.protocol", q.version));
             x.expect.push_back(std::make_pair("req.protocol_num", q.version == "HTTP/1.1" ? "101" : "100"));
             expect_common_headers(x, "req.hdr", q);
-            x.expect.push_back(std::make_pair("@body.req", q.framing == FR_NONE ? Bytes() : q.payload));
+            x.expect.push_back(std::make_pair("@body.req", (q.framing == FR_NONE || q.body_withheld) ? Bytes() : q.payload));
+            // the client of the previous exchange waited for its answer (Expect: 100-continue, refused): this request follows it
+            if (i > 0 && s.req[i - 1].body_withheld) x.expect.push_back(std::make_pair("@req_after_prev_res", Bytes("1")));
             x.expect.push_back(std::make_pair("@msglen.req", strfmt("%ld", a.body_wire_len)));
             if (i < s.res.size()) {
                 const MsgSpec &p = s.res[i];
@@ -486,6 +489,10 @@ void interleave_ops(Rng &rng, const ConnPlan &cp, int conn, const std::vector<si
         const std::vector<size_t> &c = d == 0 ? cuts0 : cuts1;
         b[d].push_back(0); for (size_t x : c) b[d].push_back(x); b[d].push_back(cp.stream[d].size());
     }
+    // a request that waits for the previous answer starts a chunk of its own, and that answer ends one (otherwise the two
+    // constraints - request after answer, answer chunk after every request it covers - could block each other)
+    for (size_t k = 1; k < cp.xchg.size(); k++) for (auto &ex : cp.xchg[k].expect) if (ex.first == "@req_after_prev_res" && cp.xchg[k].req.a > 0) { b[0].push_back((size_t) cp.xchg[k].req.a); if (cp.xchg[k - 1].res.b > 0) b[1].push_back((size_t) cp.xchg[k - 1].res.b); }
+    for (int d = 0; d < 2; d++) { std::sort(b[d].begin(), b[d].end()); b[d].erase(std::unique(b[d].begin(), b[d].end()), b[d].end()); }
     size_t i[2] = {0, 0};   // index of next chunk start in b[d]
     auto remaining = [&](int d) { return i[d] + 1 < b[d].size() && b[d][i[d]] < b[d][i[d] + 1]; };
     while (remaining(0) || remaining(1)) {
